@@ -249,6 +249,35 @@ func runJobctlScenarios(c *Ctx) {
 		c.Nontrivial()
 	})
 
+	// F19 (known finding): a sync that reads a STALE Job (its own status update not yet in the
+	// Job cache) re-creates a task name that the authoritative status already records, after the
+	// first Pod vanished; refs are keyed by name, so the two incarnations are mixed up.
+	c.RunScenario("f19-stale-job-cache-recreates-task", func() {
+		w := newJobctlSc(c, nil) // maxAttempts 1
+		w.flush()
+		w.work() // creates job-<h>-0, status v2 written; the Job cache stays at v1 (no refs)
+		w.deliver("pods")
+		k := 0
+		for _, p := range w.ownedPods() {
+			w.forceKind = &k
+			w.kubelet(p, 3) // Succeeded
+		}
+		w.deliver("pods")
+		for _, p := range w.ownedPods() {
+			w.kubelet(p, 6) // the Pod object vanishes (node lost / manual delete)
+		}
+		w.work() // stale Job v1: the index looks missing -> the same name is created again; status write conflicts
+		w.deliver("jobs")
+		w.work() // pod cache still holds the first incarnation (Succeeded) -> Job Finished/Success
+		w.deliver("pods")
+		w.deliver("pods")
+		w.deliver("jobs")
+		w.work()
+		w.flush()
+		w.settle(3)
+		c.Nontrivial()
+	})
+
 	// F15: a task created but not recorded (status update conflict) is still killed with the Job.
 	c.RunScenario("f15-orphan-after-kill", func() {
 		w := newJobctlSc(c, nil)
